@@ -83,7 +83,11 @@ pub fn run_case(ctx: &Ctx, case: &Case) -> Outcome {
         let failed_gets_before = stub.failed_gets.load(Ordering::SeqCst);
         let errors_before = crate::errlog::errors();
         let results: Vec<(String, String, String)> = match op {
-            Op::RestartClean | Op::RestartKill => c06::restart(&mut w, *op == Op::RestartClean),
+            Op::RestartClean | Op::RestartKill => {
+                let stub2 = stub.clone();
+                let s3 = strat == "s3";
+                c06::restart_guarded(&mut w, *op == Op::RestartClean, &move || !(s3 && stub2.failed_puts.load(Ordering::SeqCst) > failed_puts_before))
+            }
             o => {
                 if let Op::Tick = o {
                     if !w.queued.is_empty() {
@@ -122,13 +126,22 @@ pub fn run_case(ctx: &Ctx, case: &Case) -> Outcome {
         // failed during this step and was not reported is the violation; what follows from it (start-up panic, database
         // gone, keys object of one snapshot read against the values object of another, a garbage length that makes the
         // loader allocate petabytes) is the same root cause and is not chased
-        if strat == "s3" && put_failed_now && !(panicked || logged) {
-            let sig = format!("C18|{}|failed-upload-not-reported", strat);
-            if ctx.is_known(&sig) {
-                *known_hits.entry(sig).or_insert(0) += 1;
+        // (a panic or an error line of the start-up that follows a shutdown snapshot in the same step is not a report of
+        // the failed upload)
+        let upload_panicked = results.iter().any(|(w, _, _)| w == "snapshot-panic" || w == "shutdown-panic");
+        let is_restart = matches!(op, Op::RestartClean | Op::RestartKill);
+        if strat == "s3" && put_failed_now {
+            if !(upload_panicked || (logged && !is_restart)) {
+                let sig = format!("C18|{}|failed-upload-not-reported", strat);
+                if ctx.is_known(&sig) {
+                    *known_hits.entry(sig).or_insert(0) += 1;
+                } else {
+                    fail = Some((sig, format!("step {} {:?}: {} PUT(s) failed, none was retried and the snapshot returned normally without an error log", i, op, stub.failed_puts.load(Ordering::SeqCst) - failed_puts_before)));
+                }
             } else {
-                fail = Some((sig, format!("step {} {:?}: {} PUT(s) failed, none was retried and the snapshot returned normally without an error log", i, op, stub.failed_puts.load(Ordering::SeqCst) - failed_puts_before)));
+                reported = true;
             }
+            // either way the objects of this strategy are now of mixed generations: nothing is started from them
             break 'ops;
         }
         if let Fault::GetFailsOnce { .. } = case.fault {
